@@ -466,7 +466,7 @@ theorem piecesList_ne {sc} {args : List Expr} (h : args ≠ []) : piecesList sc 
   | nil => exact absurd rfl h
   | cons a as => simp [piecesList]
 
-theorem se_call {sc f dt args} (hid : validIdent (cMathName sc dt f) = true) (hne : args ≠ [])
+theorem se_call {sc f dt args} (hid : validIdent (cMathName sc args f) = true) (hne : args ≠ [])
     (hall : ∀ x ∈ args, SP (piecesC sc x)) : SE sc (.call f dt args) := by
   have hJ : SP (joinP [pp .comma, sp] (piecesList sc args)) := by
     refine sp_join (by simp [separated, sp, pp, tokOK, isSpace]) (by simp) ?_ ?_ _ (piecesList_ne hne) ?_
@@ -477,9 +477,9 @@ theorem se_call {sc f dt args} (hid : validIdent (cMathName sc dt f) = true) (hn
     · intro x hx
       obtain ⟨a, ha, rfl⟩ := sp_list_mem hx
       exact hall a ha
-  have hp : piecesC sc (.call f dt args) = (.t (.id (cMathName sc dt f)) :: pp .lpar :: joinP [pp .comma, sp] (piecesList sc args))
+  have hp : piecesC sc (.call f dt args) = (.t (.id (cMathName sc args f)) :: pp .lpar :: joinP [pp .comma, sp] (piecesList sc args))
       ++ [pp .rpar] := by simp [piecesC]
-  have h1 := sp_head (cMathName sc dt f) .lpar '(' rfl rfl stTok_lpar (validIdent_tokOK hid) hJ
+  have h1 := sp_head (cMathName sc args f) .lpar '(' rfl rfl stTok_lpar (validIdent_tokOK hid) hJ
   exact ⟨by rw [hp]; exact sp_snoc .rpar (Or.inl rfl) h1⟩
 
 theorem se_idx {sc arr dt ix} (hid : validIdent arr = true) (hne : ix ≠ [])
@@ -538,7 +538,11 @@ theorem se_all (sc : Scalar) : ∀ n e, esize e ≤ n → wfC sc e = true → SE
       exact ⟨by simpa [piecesC] using sp_nary .star 4 args hwf.1 hall⟩
     | call f dt args =>
       simp only [esize] at hsz; simp only [wfC, Bool.and_eq_true, Bool.not_eq_true', List.isEmpty_eq_false_iff] at hwf
-      exact se_call hwf.1.1 hwf.1.2 (fun x hx =>
+      have hid : validIdent (cMathName sc args f) = true := by
+        have := hwf.1.1
+        simp only [callOK, Bool.and_eq_true] at this
+        exact this.1.1
+      exact se_call hid hwf.1.2 (fun x hx =>
         (ih x (by have := esize_mem hx; omega) (wfLC_mem hwf.2 hx)).sp)
     | idx arr dt ix =>
       simp only [esize] at hsz; simp only [wfC, Bool.and_eq_true, Bool.not_eq_true', List.isEmpty_eq_false_iff] at hwf
